@@ -10,7 +10,7 @@ ID = "C15"
 TITLE = "Geometry export round-trips every cell with its indexes"
 MC = {"quick": [("MC_Export", "MC_Export.cfg", 4)], "thorough": [("MC_Export", "MC_Export.cfg", 8)]}
 TRACE = ("Trace_Cells", "Trace_Cells.cfg")
-REQUIRED = ["Export", "fmt-geojson", "fmt-shapefile", "fmt-wkt", "fmt-wkb", "holes",
+REQUIRED = ["Export", "via-cli", "fmt-geojson", "fmt-shapefile", "fmt-wkt", "fmt-wkb", "holes",
             "cf1d", "cf2d", "shoc_simple", "shoc_standard", "arakawa", "ugrid"]
 RULE = ("one case = one dataset with lattice geometry (holes, skewed cells, meshes with 3-8 sided faces, multi-kind "
         "native indexes) exported by write_geojson / write_shapefile / write_wkt / write_wkb and read back by independent "
@@ -29,6 +29,14 @@ def cases(tier: str, seed: int) -> list[dict]:
         d = tlc.WORK / "C15" / f"exp-{os.getpid()}-{k}"
         ev = [{"a": "Export", "fmt": fmt, "path": str(d / fmt / ("out." + ext))}
               for fmt, ext in (("geojson", "geojson"), ("shapefile", "shp"), ("wkt", "wkt"), ("wkb", "wkb"))]
+        if w["conv"] != "arakawa" and (tier == "thorough" or k % 2 == 0):
+            # the same exports through `emsarray export-geometry` on a file whose coordinates carry an on-disk encoding
+            # (plain / a finite _FillValue for the cells without coordinates / packed integers)
+            if w["conv"] != "ugrid":
+                w["coordenc"] = [None, "fill", "packed"][(k // 2) % 3]
+            fmts = (("geojson", "geojson"), ("shapefile", "shp"), ("wkt", "wkt"), ("wkb", "wkb"))
+            for fmt, ext in (fmts if tier == "thorough" else [fmts[(k // 2) % 4], fmts[(k // 2 + 1) % 4]]):
+                ev.append({"a": "Export", "fmt": fmt, "path": str(d / ("cli-" + fmt) / ("out." + ext)), "via": "cli"})
         out.append({"src": "gen", "world": w, "events": ev})
     return out
 
